@@ -8,7 +8,7 @@ from hypothesis import strategies as st
 
 from vf.cli import jhash
 
-CODES = (200, 401, 403, 404, 500)
+CODES = (200, 401, 403, 404, 500, 429, 502)
 INSTALL_TOKEN = 'ghs_1NsTaLLaTi0nT0kenSentinel9f3a'
 _KEY = []
 
@@ -101,7 +101,8 @@ class Transport:
         r.url = request.url
         r.request = request
         r.reason = {200: 'OK', 401: 'Unauthorized', 403: 'Forbidden',
-                    404: 'Not Found', 500: 'Internal Server Error'}[code]
+                    404: 'Not Found', 500: 'Internal Server Error',
+                    429: 'Too Many Requests', 502: 'Bad Gateway'}[code]
         r.encoding = 'utf-8'
         r.elapsed = datetime.timedelta(microseconds=5)
         return r
